@@ -117,6 +117,9 @@ def rs(s, S, ind, out):
         rbody(body, S, ind + 1, out)
     elif k == "soft":
         out.append("%svsc.soft(%s)" % (pad, rx(s[1], S)))
+    elif k == "mk":
+        # an unrelated instance is constructed while the block is open
+        out.append("%s_pvs_other = type(obj)()" % pad)
     elif k == "dist":
         ws = []
         for item, wt in s[2]:
